@@ -15,6 +15,7 @@ res = {}
 if os.path.exists(MPATH) and (only or only_seeds):
     res = json.load(open(MPATH))
 lock = threading.Lock()
+PREV = json.load(open(MPATH)) if os.path.exists(MPATH) else {}
 
 
 def checks_for(pid, patch):
@@ -22,6 +23,10 @@ def checks_for(pid, patch):
         return sorted(PROPS)
     dirs = set(os.path.dirname(l[6:].strip()) for l in open(patch) if l.startswith("+++ b/"))
     out = {pid}
+    if os.environ.get("VERIF_MATRIX_FAST"):
+        # regression mode: the seed's own property plus the checks that reported it in the previous matrix
+        prev = PREV.get(pid + "/" + os.path.basename(os.path.dirname(patch)), {})
+        return sorted(out | set((prev.get("detected_by") or {}).keys()))
     for chk, P in PROPS.items():
         for pkgs, _ in P["groups"]:
             for pk in pkgs:
